@@ -21,14 +21,23 @@ import (
 // ---------------------------------------------------------------- C15
 
 // counterSpec: a machine that adds up what it is sent; version-stamped.
+//
+// Versions above 10 behave like version ver-10 but all carry the same
+// label ("v0"): a spec replaced by a different one under an unchanged
+// name and version.
 func counterSpec(ver int) *core.Spec {
+	label := fmt.Sprintf("v%d", ver)
+	if ver > 10 {
+		ver -= 10
+		label = "v0"
+	}
 	src := fmt.Sprintf(`
 var bs = _.bindings;
 var c = (typeof bs.count === 'number' ? bs.count : 0) + (typeof bs["?n"] === 'number' ? bs["?n"] : 1) * %d;
 _.out({to: "sink", count: c, ver: %d});
 return {count: c, ver: %d};
 `, ver, ver, ver)
-	return &core.Spec{Name: "counter", Version: fmt.Sprintf("v%d", ver), Nodes: map[string]*core.Node{
+	return &core.Spec{Name: "counter", Version: label, Nodes: map[string]*core.Node{
 		"start": {Branches: &core.Branches{Type: "message", Branches: []*core.Branch{
 			{Pattern: map[string]interface{}{"inc": "?n"}, Target: "add"},
 			{Pattern: map[string]interface{}{"park": true}, Target: "parked"}}}},
@@ -67,7 +76,7 @@ func genCOp(t *rapid.T, label string, existingStateOK, recreateOK bool) COp {
 		kinds = append(kinds, "setState", "setState")
 	}
 	op := COp{Kind: rapid.SampledFrom(kinds).Draw(t, label+".kind"), Mid: rapid.SampledFrom(c15mids).Draw(t, label+".mid")}
-	op.Ver = rapid.IntRange(1, 3).Draw(t, label+".ver")
+	op.Ver = rapid.SampledFrom([]int{1, 2, 3, 1, 2, 3, 11, 12, 13}).Draw(t, label+".ver")
 	if op.Kind == "setState" || (op.Kind == "create" && rapid.Bool().Draw(t, label+".ws")) {
 		op.State = true
 		op.Count = float64(rapid.IntRange(0, 50).Draw(t, label+".count"))
